@@ -78,7 +78,30 @@ func selfValidate(p *Property, repo, verif string) []map[string]interface{} {
 			applied++
 			prog := Load(LoadConfig{Dir: scratch})
 			c := &Ctx{P: prog, Property: p.ID, Tier: "thorough"}
-			p.Run(c)
+			// (an anchor the rules cannot resolve on the changed tree is the UNDECIDED answer, not a crash of this run)
+			anchorLost := ""
+			func() {
+				defer func() {
+					if r := recover(); r != nil {
+						te, isTE := r.(toolError)
+						if !isTE {
+							panic(r)
+						}
+						anchorLost = te.msg
+					}
+				}()
+				p.Run(c)
+			}()
+			if anchorLost != "" {
+				seedName := filepath.Base(filepath.Dir(patch))
+				if why, listed := undetected[seedName]; listed {
+					report = append(report, map[string]interface{}{"mutant": name, "status": "not decided: an anchor of the rules does not resolve (listed in seeded/UNDETECTED.json)", "reason": why})
+					fmt.Printf("  self-validation: mutant %-60s NOT decided (anchor) — listed\n", name)
+					applied--
+					return
+				}
+				fatalf("self-validation: mutant %s: %s", name, anchorLost)
+			}
 			var fresh []string
 			for _, o := range c.Obs {
 				if !o.OK && !o.Recog && !kk[normKey(o.Key)] && !(o.AltKey != "" && kk[o.AltKey]) {
